@@ -71,8 +71,155 @@ pub open spec fn opt_rr_enc(h: &Header) -> Seq<u8> {
                      + enc16(opt.wf_enc().len() as u16) + opt.wf_enc(),
     }
 }
+pub open spec fn seq_canon<'a, T: WireFormat<'a>>(vs: Seq<T>) -> bool {
+    forall|i: int| 0 <= i < vs.len() ==> (#[trigger] vs[i]).wf_canon()
+}
+pub proof fn lemma_seq_enc_step<'a, T: WireFormat<'a>>(vs: Seq<T>, i: int)
+    requires 0 <= i < vs.len()
+    ensures seq_enc::<T>(vs.subrange(0, i + 1)) == seq_enc::<T>(vs.subrange(0, i)) + vs[i].wf_enc(),
+            seq_enc::<T>(vs.subrange(0, i + 1)).len() <= seq_enc::<T>(vs).len(),
+{
+    assert(vs.subrange(0, i + 1).drop_last() =~= vs.subrange(0, i));
+    assert(vs.subrange(0, i + 1).last() == vs[i]);
+    lemma_seq_enc_prefix::<T>(vs, i + 1);
+}
+pub proof fn lemma_seq_enc_prefix<'a, T: WireFormat<'a>>(vs: Seq<T>, j: int)
+    requires 0 <= j <= vs.len()
+    ensures seq_enc::<T>(vs.subrange(0, j)).len() <= seq_enc::<T>(vs).len()
+    decreases vs.len() - j
+{
+    if j < vs.len() {
+        lemma_seq_enc_prefix::<T>(vs, j + 1);
+        assert(vs.subrange(0, j + 1).drop_last() =~= vs.subrange(0, j));
+    } else {
+        assert(vs.subrange(0, j) =~= vs);
+    }
+}
+/// element decoding does not depend on bytes appended after the element
+pub proof fn lemma_q_stable(d: Seq<u8>, x: Seq<u8>, p: int, v: &Question, p2: int)
+    requires Question::wf_dec(d, p, v, p2), 0 <= p
+    ensures Question::wf_dec(d + x, p, v, p2)
+{
+    lemma_append_stable(d, x, p, 0);
+    lemma_inplace_append_stable(d, x, p, 0);
+    let q = p + inplace_len(d, p);
+    assert((d + x)[q] == d[q] && (d + x)[q + 1] == d[q + 1] && (d + x)[q + 2] == d[q + 2] && (d + x)[q + 3] == d[q + 3]);
+}
+pub proof fn lemma_rr_stable(d: Seq<u8>, x: Seq<u8>, p: int, v: &ResourceRecord, p2: int)
+    requires ResourceRecord::wf_dec(d, p, v, p2), 0 <= p
+    ensures ResourceRecord::wf_dec(d + x, p, v, p2)
+{
+    lemma_append_stable(d, x, p, 0);
+    lemma_inplace_append_stable(d, x, p, 0);
+    let q = p + inplace_len(d, p);
+    assert((d + x)[q] == d[q] && (d + x)[q + 1] == d[q + 1] && (d + x)[q + 2] == d[q + 2] && (d + x)[q + 3] == d[q + 3] && (d + x)[q + 8] == d[q + 8] && (d + x)[q + 9] == d[q + 9]);
+    assert((d + x).subrange(q + 4, q + 8) =~= d.subrange(q + 4, q + 8));
+    assert((d + x).subrange(0, p2) =~= d.subrange(0, p2));
+}
+pub proof fn lemma_qchain_stable<'a>(d: Seq<u8>, x: Seq<u8>, p0: int, vs: Seq<Question<'a>>, p1: int)
+    requires chain::<Question>(d, p0, vs, p1), 0 <= p0
+    ensures chain::<Question>(d + x, p0, vs, p1)
+    decreases vs.len()
+{
+    if vs.len() > 0 {
+        let q = choose|q: int| p0 <= q <= p1 && chain::<Question>(d, p0, vs.drop_last(), q) && #[trigger] Question::wf_dec(d, q, &vs.last(), p1);
+        lemma_qchain_stable(d, x, p0, vs.drop_last(), q);
+        lemma_q_stable(d, x, q, &vs.last(), p1);
+    }
+}
+pub proof fn lemma_rrchain_stable<'a>(d: Seq<u8>, x: Seq<u8>, p0: int, vs: Seq<ResourceRecord<'a>>, p1: int)
+    requires chain::<ResourceRecord>(d, p0, vs, p1), 0 <= p0
+    ensures chain::<ResourceRecord>(d + x, p0, vs, p1)
+    decreases vs.len()
+{
+    if vs.len() > 0 {
+        let q = choose|q: int| p0 <= q <= p1 && chain::<ResourceRecord>(d, p0, vs.drop_last(), q) && #[trigger] ResourceRecord::wf_dec(d, q, &vs.last(), p1);
+        lemma_rrchain_stable(d, x, p0, vs.drop_last(), q);
+        lemma_rr_stable(d, x, q, &vs.last(), p1);
+    }
+}
+/// one more entry written by a compressing writer: b2 extends b, the new bytes decode to e
+pub proof fn lemma_step_q<'a>(b: Seq<u8>, b2: Seq<u8>, p0: int, vs: Seq<Question<'a>>, i: int)
+    requires 0 <= p0 <= b.len(), 0 <= i < vs.len(), b2.len() >= b.len(), b2.subrange(0, b.len() as int) =~= b,
+             chain::<Question>(b, p0, vs.subrange(0, i), b.len() as int), Question::wf_dec(b2, b.len() as int, &vs[i], b2.len() as int)
+    ensures chain::<Question>(b2, p0, vs.subrange(0, i + 1), b2.len() as int)
+{
+    let x = b2.subrange(b.len() as int, b2.len() as int);
+    assert(b2 =~= b + x);
+    lemma_qchain_stable(b, x, p0, vs.subrange(0, i), b.len() as int);
+    assert(vs.subrange(0, i + 1).drop_last() =~= vs.subrange(0, i));
+    assert(vs.subrange(0, i + 1).last() == vs[i]);
+}
+pub proof fn lemma_step_rr<'a>(b: Seq<u8>, b2: Seq<u8>, p0: int, vs: Seq<ResourceRecord<'a>>, i: int)
+    requires 0 <= p0 <= b.len(), 0 <= i < vs.len(), b2.len() >= b.len(), b2.subrange(0, b.len() as int) =~= b,
+             chain::<ResourceRecord>(b, p0, vs.subrange(0, i), b.len() as int), ResourceRecord::wf_dec(b2, b.len() as int, &vs[i], b2.len() as int)
+    ensures chain::<ResourceRecord>(b2, p0, vs.subrange(0, i + 1), b2.len() as int)
+{
+    let x = b2.subrange(b.len() as int, b2.len() as int);
+    assert(b2 =~= b + x);
+    lemma_rrchain_stable(b, x, p0, vs.subrange(0, i), b.len() as int);
+    assert(vs.subrange(0, i + 1).drop_last() =~= vs.subrange(0, i));
+    assert(vs.subrange(0, i + 1).last() == vs[i]);
+}
+/// earlier sections stay decodable while later entries are appended
+pub proof fn lemma_keep_q<'a>(b: Seq<u8>, b2: Seq<u8>, p0: int, vs: Seq<Question<'a>>, p1: int)
+    requires 0 <= p0, b2.len() >= b.len(), b2.subrange(0, b.len() as int) =~= b, chain::<Question>(b, p0, vs, p1)
+    ensures chain::<Question>(b2, p0, vs, p1)
+{
+    let x = b2.subrange(b.len() as int, b2.len() as int);
+    assert(b2 =~= b + x);
+    lemma_qchain_stable(b, x, p0, vs, p1);
+}
+pub proof fn lemma_keep_rr<'a>(b: Seq<u8>, b2: Seq<u8>, p0: int, vs: Seq<ResourceRecord<'a>>, p1: int)
+    requires 0 <= p0, b2.len() >= b.len(), b2.subrange(0, b.len() as int) =~= b, chain::<ResourceRecord>(b, p0, vs, p1)
+    ensures chain::<ResourceRecord>(b2, p0, vs, p1)
+{
+    let x = b2.subrange(b.len() as int, b2.len() as int);
+    assert(b2 =~= b + x);
+    lemma_rrchain_stable(b, x, p0, vs, p1);
+}
+/// the 12 header octets read back as the header fields they were written from
+pub proof fn lemma_hdr_rt(h: &Header, qd: u16, an: u16, ns: u16, ar: u16, d: Seq<u8>)
+    requires d.len() >= 12, d.subrange(0, 12) == hdr_enc(h, qd, an, ns, ar)
+    ensures
+        be16(d[0], d[1]) == h.id, be16(d[4], d[5]) == qd, be16(d[6], d[7]) == an, be16(d[8], d[9]) == ns, be16(d[10], d[11]) == ar,
+        h.opcode == opcode_of_code((hdr_flags(d) >> 11) & 0xF),
+        pf_bits(h.z_flags) == hdr_flags(d) & 0x87B0,
+        hdr_flags(d) & 0x0040 == 0,
+{
+    let e = hdr_enc(h, qd, an, ns, ar);
+    let fl = hdr_flags_enc(h);
+    assert forall|i: int| 0 <= i < 12 implies d[i] == e[i] by { assert(d.subrange(0, 12)[i] == e[i]); }
+    lemma_be16_enc16(h.id); lemma_be16_enc16(fl); lemma_be16_enc16(qd); lemma_be16_enc16(an); lemma_be16_enc16(ns); lemma_be16_enc16(ar);
+    assert(e[0] == enc16(h.id)[0] && e[1] == enc16(h.id)[1] && e[2] == enc16(fl)[0] && e[3] == enc16(fl)[1]);
+    assert(e[4] == enc16(qd)[0] && e[5] == enc16(qd)[1] && e[6] == enc16(an)[0] && e[7] == enc16(an)[1]);
+    assert(e[8] == enc16(ns)[0] && e[9] == enc16(ns)[1] && e[10] == enc16(ar)[0] && e[11] == enc16(ar)[1]);
+    let pf = pf_bits(h.z_flags); let op = opcode_code(h.opcode); let rc = rcode_code(h.response_code);
+    assert(pf & 0x87B0u16 == pf) by { lemma_pf_bits(h.z_flags); }
+    assert(op <= 6 && rc <= 17);
+    assert(((pf | (op << 11u16) | (rc & 0xFu16)) >> 11u16) & 0xFu16 == op
+        && (pf | (op << 11u16) | (rc & 0xFu16)) & 0x87B0u16 == pf
+        && (pf | (op << 11u16) | (rc & 0xFu16)) & 0x0040u16 == 0) by(bit_vector)
+        requires pf & 0x87B0u16 == pf, op <= 6;
+}
+/// the OPT pseudo-record built by Header::opt_rr is canonical (its TTL carries the version it is parsed back with)
+pub proof fn lemma_opt_ttl_version(rc: RCODE, ver: u8)
+    ensures (opt_ttl(rc, ver) >> 16u32) & 0xFFu32 == ver as u32
+{
+    let c = rcode_code(rc) as u32;
+    let v = ver as u32;
+    assert(c <= 17);
+    assert(((((c >> 4u32) << 24u32) | (v << 16u32)) >> 16u32) & 0xFFu32 == v) by(bit_vector) requires c <= 17, v <= 255;
+}
 impl<'a> Packet<'a> {
     pub closed spec fn hdr(&self) -> Header<'a> { self.header }
+    /// every entry reads back as itself; OPT data lives only in the header (never in additional_records)
+    pub closed spec fn pkt_canon(&self) -> bool {
+        &&& seq_canon::<Question>(self.questions@) && seq_canon::<ResourceRecord>(self.answers@)
+        &&& seq_canon::<ResourceRecord>(self.name_servers@) && seq_canon::<ResourceRecord>(self.additional_records@)
+        &&& forall|i: int| 0 <= i < self.additional_records@.len() ==> rdata_type(&(#[trigger] self.additional_records@[i]).rdata) != crate::TYPE::OPT
+        &&& self.pkt_enc().len() <= 65535
+    }
     /// "assembled through the public constructors and within DNS size limits"
     pub closed spec fn pkt_ok(&self) -> bool {
         &&& seq_ok::<Question>(self.questions@) && seq_ok::<ResourceRecord>(self.answers@)
@@ -136,7 +283,7 @@ def apply(c):
     rel = 'dns/packet.rs'
     c.wrap(rel, "pub struct Packet<'a> {")
     c.append(rel, SPECS)
-    verified = ('parse', 'parse_section', 'write_to', 'write_header')
+    verified = ('parse', 'parse_section', 'write_to', 'write_header', 'write_compressed_to')
     for fn in list_fns(c, rel, P_IMPL):
         if fn not in verified:
             c.mark(rel, P_IMPL, fn, '#[verifier::external]')
@@ -259,4 +406,167 @@ def apply(c):
     loop(1, 'answers', 'ResourceRecord', 'e1')
     loop(2, 'name_servers', 'ResourceRecord', 'e2')
     loop(3, 'additional_records', 'ResourceRecord', 'e4')
+    # ---- write_compressed_to: the whole message decodes to this packet (C03), is framed by the header counts (C04),
+    #      carries the OPT record once (C09) and is never longer than the plain encoding
+    W = 'write_compressed_to'
+    c.mark(rel, P_IMPL, W, '#[verifier::rlimit(60)]')
+    c.contract(rel, P_IMPL, W, """
+        requires self.pkt_ok(), self.pkt_canon(), io_buf(old(out)).len() == 0, io_pos(old(out)) == 0,
+        ensures
+            r is Ok ==> at_end(final(out)),
+            r is Ok ==> io_buf(final(out)).len() <= self.pkt_enc().len(), // @C03:never-longer
+            r is Ok ==> self.dec(io_buf(final(out))), // @C03:compressed-message-decodes-to-the-packet,C04:counts-and-entries,C07:pointers-expand,C09:one-opt-record
+""", pre_body="""
+        let ghost e0 = hdr_enc(&self.header, self.questions@.len() as u16, self.answers@.len() as u16, self.name_servers@.len() as u16,
+                (self.additional_records@.len() + if self.header.opt is Some { 1int } else { 0int }) as u16);
+        let ghost lq = seq_enc::<Question>(self.questions@).len() as int;
+        let ghost la = seq_enc::<ResourceRecord>(self.answers@).len() as int;
+        let ghost ln = seq_enc::<ResourceRecord>(self.name_servers@).len() as int;
+        let ghost lo = opt_rr_enc(&self.header).len() as int;
+        let ghost lx = seq_enc::<ResourceRecord>(self.additional_records@).len() as int;
+        proof {
+            assert(e0.len() == 12);
+            assert(self.pkt_enc().len() == 12 + lq + la + ln + lo + lx);
+        }
+""")
+    c.ghost(rel, P_IMPL, W, "let mut name_refs = HashMap::new();", """
+        proof {
+            broadcast use crate::dns::name::axiom_label_slice_key_model;
+            assert(io_buf(out) =~= e0);
+            assert(io_buf(out).subrange(0, 12) =~= e0);
+            assert(self.questions@.subrange(0, 0) =~= Seq::<Question>::empty());
+        }
+""", where='after')
+    COMMON = """self.pkt_ok(), self.pkt_canon(), at_end(out), refs_ok(name_refs@, io_buf(out)),
+                e0.len() == 12, io_buf(out).len() >= 12, io_buf(out).subrange(0, 12) =~= e0,
+                self.pkt_enc().len() == 12 + lq + la + ln + lo + lx,
+                lq == seq_enc::<Question>(self.questions@).len(), la == seq_enc::<ResourceRecord>(self.answers@).len(),
+                ln == seq_enc::<ResourceRecord>(self.name_servers@).len(), lx == seq_enc::<ResourceRecord>(self.additional_records@).len(),"""
+    def cloop(k, field, ty, base, keep_inv, keep_proof, step, extra_inv=''):
+        c.loop_spec(rel, P_IMPL, W, k, """
+            invariant %s
+                0 <= vx_c%d.index@ <= self.%s@.len(),
+                io_buf(out).len() <= %s + seq_enc::<%s>(self.%s@.subrange(0, vx_c%d.index@ as int)).len(),
+                %s
+                %s
+""" % (COMMON, k, field, base, ty, field, k, keep_inv, extra_inv), iter_name='vx_c%d' % k, body_pre="""
+            broadcast use crate::dns::name::axiom_label_slice_key_model;
+            let ghost vx_b = io_buf(out);
+            let ghost vx_i = vx_c%d.index@ as int;
+            proof { lemma_seq_enc_step::<%s>(self.%s@, vx_i); }
+""" % (k, ty, field))
+        c.ghost(rel, P_IMPL, W, "e.write_compressed_to(out, &mut name_refs)?;", """
+            proof {
+                let b2 = io_buf(out);
+                assert(b2.subrange(0, 12) =~= e0) by { assert forall|j: int| 0 <= j < 12 implies b2[j] == vx_b[j] by { assert(b2.subrange(0, vx_b.len() as int)[j] == vx_b[j]); } }
+                %s
+                %s
+            }
+""" % (keep_proof, step), where='after', occurrence=k)
+    cloop(0, 'questions', 'Question', '12', '', '',
+          'lemma_step_q(vx_b, b2, 12, self.questions@, vx_i);',
+          'chain::<Question>(io_buf(out), 12, self.questions@.subrange(0, vx_c0.index@ as int), io_buf(out).len() as int),')
+    KQ = 'chain::<Question>(io_buf(out), 12, self.questions@, vx_p1), 12 <= vx_p1 <= io_buf(out).len(),'
+    PQ = 'lemma_keep_q(vx_b, b2, 12, self.questions@, vx_p1);'
+    cloop(1, 'answers', 'ResourceRecord', '12 + lq', KQ, PQ,
+          'lemma_step_rr(vx_b, b2, vx_p1, self.answers@, vx_i);',
+          'chain::<ResourceRecord>(io_buf(out), vx_p1, self.answers@.subrange(0, vx_c1.index@ as int), io_buf(out).len() as int),')
+    KA = KQ + ' chain::<ResourceRecord>(io_buf(out), vx_p1, self.answers@, vx_p2), vx_p1 <= vx_p2 <= io_buf(out).len(),'
+    PA = PQ + ' lemma_keep_rr(vx_b, b2, vx_p1, self.answers@, vx_p2);'
+    cloop(2, 'name_servers', 'ResourceRecord', '12 + lq + la', KA, PA,
+          'lemma_step_rr(vx_b, b2, vx_p2, self.name_servers@, vx_i);',
+          'chain::<ResourceRecord>(io_buf(out), vx_p2, self.name_servers@.subrange(0, vx_c2.index@ as int), io_buf(out).len() as int),')
+    KN = KA + ' chain::<ResourceRecord>(io_buf(out), vx_p2, self.name_servers@, vx_p3), vx_p2 <= vx_p3 <= io_buf(out).len(),'
+    PN = PA + ' lemma_keep_rr(vx_b, b2, vx_p2, self.name_servers@, vx_p3);'
+    cloop(3, 'additional_records', 'ResourceRecord', '12 + lq + la + ln + lo', KN, PN,
+          """assert((vx_w0 + self.additional_records@).subrange(0, vx_w0.len() + vx_i) =~= vx_w0 + self.additional_records@.subrange(0, vx_i));
+                assert((vx_w0 + self.additional_records@).subrange(0, vx_w0.len() + vx_i + 1) =~= vx_w0 + self.additional_records@.subrange(0, vx_i + 1));
+                assert((vx_w0 + self.additional_records@)[vx_w0.len() + vx_i] == self.additional_records@[vx_i]);
+                lemma_step_rr(vx_b, b2, vx_p3, vx_w0 + self.additional_records@, vx_w0.len() + vx_i);""",
+          """vx_w0.len() == (if self.header.opt is Some { 1int } else { 0int }), lo == opt_rr_enc(&self.header).len(),
+                self.header.opt is Some ==> vx_w0.len() == 1 && vx_w0[0].rdata == crate::rdata::RData::OPT(self.header.opt.unwrap()),
+                chain::<ResourceRecord>(io_buf(out), vx_p3, vx_w0 + self.additional_records@.subrange(0, vx_c3.index@ as int), io_buf(out).len() as int),""")
+    # section boundaries
+    c.ghost(rel, P_IMPL, W, "for e in vx_c1: &self.answers", """
+        let ghost vx_p1 = io_buf(out).len() as int;
+        proof {
+            assert(self.questions@.subrange(0, self.questions@.len() as int) =~= self.questions@);
+            assert(self.answers@.subrange(0, 0) =~= Seq::<ResourceRecord>::empty());
+        }
+""", where='before')
+    c.ghost(rel, P_IMPL, W, "for e in vx_c2: &self.name_servers", """
+        let ghost vx_p2 = io_buf(out).len() as int;
+        proof {
+            assert(self.answers@.subrange(0, self.answers@.len() as int) =~= self.answers@);
+            assert(self.name_servers@.subrange(0, 0) =~= Seq::<ResourceRecord>::empty());
+        }
+""", where='before')
+    c.ghost(rel, P_IMPL, W, "if let Some(rr) = self.header.opt_rr() {", """
+        let ghost vx_p3 = io_buf(out).len() as int;
+        let ghost mut vx_w0: Seq<ResourceRecord> = Seq::empty();
+        proof {
+            assert(self.name_servers@.subrange(0, self.name_servers@.len() as int) =~= self.name_servers@);
+        }
+""", where='before')
+    c.ghost(rel, P_IMPL, W, "rr.write_to(out)?;", """
+            let ghost vx_bo = io_buf(out);
+            proof {
+                lemma_opt_ttl_version(self.header.response_code, self.header.opt.unwrap().version);
+                assert(rr.name.lv().len() == 0);
+                assert(wl(rr.name.lv()) == 0);
+                assert(rr.wf_ok());
+                assert(rr.wf_canon());
+                rr.lemma_rt(vx_bo);
+                lemma_enc_be_len(rr.ttl as nat, 4);
+                assert(rr.wf_enc() =~= opt_rr_enc(&self.header)) by {
+                    assert(run(rr.name.lv()) =~= Seq::<u8>::empty());
+                    assert(name_enc(rr.name.lv()) =~= seq![0u8]);
+                }
+                lemma_refs_append(name_refs@, vx_bo, rr.wf_enc());
+            }
+""", where='before')
+    c.ghost(rel, P_IMPL, W, "rr.write_to(out)?;", """
+            proof {
+                let b2 = io_buf(out);
+                assert(b2 =~= vx_bo + rr.wf_enc());
+                vx_w0 = seq![rr];
+                assert(b2.subrange(0, 12) =~= e0);
+                lemma_keep_q(vx_bo, b2, 12, self.questions@, vx_p1);
+                lemma_keep_rr(vx_bo, b2, vx_p1, self.answers@, vx_p2);
+                lemma_keep_rr(vx_bo, b2, vx_p2, self.name_servers@, vx_p3);
+                assert(vx_w0.drop_last() =~= Seq::<ResourceRecord>::empty());
+                assert(chain::<ResourceRecord>(b2, vx_p3, vx_w0.drop_last(), vx_p3));
+                assert(vx_w0.last() == rr);
+                assert(vx_p3 == vx_bo.len());
+                assert(ResourceRecord::wf_dec(b2, vx_p3, &vx_w0.last(), b2.len() as int));
+                assert(chain::<ResourceRecord>(b2, vx_p3, vx_w0, b2.len() as int));
+            }
+""", where='after')
+    c.ghost(rel, P_IMPL, W, "for e in vx_c3: &self.additional_records", """
+        proof {
+            assert(self.additional_records@.subrange(0, 0) =~= Seq::<ResourceRecord>::empty());
+            assert(vx_w0 + Seq::<ResourceRecord>::empty() =~= vx_w0);
+            if self.header.opt is None { assert(chain::<ResourceRecord>(io_buf(out), vx_p3, vx_w0, vx_p3)); }
+        }
+""", where='before')
+    c.ghost(rel, P_IMPL, W, "out.flush()?;", """
+        proof {
+            let m = io_buf(out);
+            let add = vx_w0 + self.additional_records@;
+            assert(self.additional_records@.subrange(0, self.additional_records@.len() as int) =~= self.additional_records@);
+            lemma_hdr_rt(&self.header, self.questions@.len() as u16, self.answers@.len() as u16, self.name_servers@.len() as u16,
+                (self.additional_records@.len() + if self.header.opt is Some { 1int } else { 0int }) as u16, m);
+            assert(opt_lifted(add, self.additional_records@, self.header.opt)) by {
+                if self.header.opt is Some {
+                    assert(add[0] == vx_w0[0]);
+                    assert(add.remove(0) =~= self.additional_records@);
+                    assert(rdata_type(&add[0].rdata) == crate::TYPE::OPT);
+                } else {
+                    assert(add =~= self.additional_records@);
+                }
+            }
+            assert(pkt_dec_w(m, self.questions@, self.answers@, self.name_servers@, self.additional_records@, &self.header,
+                             vx_p1, vx_p2, vx_p3, m.len() as int, add));
+        }
+""", where='before')
     c.wrap(rel, P_IMPL)
